@@ -11,11 +11,12 @@ pub mod c08;
 pub mod c09;
 pub mod c13;
 pub mod c15;
+pub mod c16;
 pub mod c19;
 pub mod c20;
 pub mod lazy;
 
-pub const ALL: &[&str] = &["C01", "C02", "C03", "C04", "C05", "C06", "C07", "C08", "C09", "C10", "C11", "C12", "C13", "C14", "C15", "C19", "C20"];
+pub const ALL: &[&str] = &["C01", "C02", "C03", "C04", "C05", "C06", "C07", "C08", "C09", "C10", "C11", "C12", "C13", "C14", "C15", "C16", "C19", "C20"];
 
 pub fn families(prop: &str, tier: Tier, variant: &str) -> Vec<Family> {
     match prop {
@@ -31,6 +32,7 @@ pub fn families(prop: &str, tier: Tier, variant: &str) -> Vec<Family> {
         "C12" => lazy::families_c12(tier),
         "C14" => lazy::families_c14(tier),
         "C15" => c15::families(tier, variant),
+        "C16" => c16::families(tier, variant),
         "C19" => c19::families(tier, variant),
         "C20" => c20::families(tier, variant),
         "C13" => c13::families(tier, variant),
